@@ -51,6 +51,25 @@ impl Default for Tok {
     }
 }
 
+/// `From<f32>`, `From<u8>` and `PartialEq` make `Tok` a differentiable data type, so that
+/// expressions produced by `partial` (which keep variables that no longer occur) can be evaluated
+/// by the consuming entry points as well.
+impl From<f32> for Tok {
+    fn from(x: f32) -> Tok {
+        Tok { term: Sym::Lit(format!("{x:?}")), origin: None }
+    }
+}
+impl From<u8> for Tok {
+    fn from(x: u8) -> Tok {
+        Tok { term: Sym::Lit(format!("{x}")), origin: None }
+    }
+}
+impl PartialEq for Tok {
+    fn eq(&self, o: &Tok) -> bool {
+        self.term == o.term
+    }
+}
+
 impl FromStr for Tok {
     type Err = String;
     fn from_str(s: &str) -> Result<Tok, String> {
